@@ -2,6 +2,7 @@ package main
 
 import (
 	"bufio"
+	"regexp"
 	"bytes"
 	"encoding/json"
 	"fmt"
@@ -72,7 +73,7 @@ func compileAndRunOrdered(tc *Toolchain, p *HProg, dir, orderEnv string, cfg Bui
 	if err != nil {
 		infra("kddp-ord did not start: %v", err)
 	}
-	o := &bObs{KddpRC: rc, KddpOut: out, OrderEnv: orderEnv, MaxN: map[string]int{}}
+	o := &bObs{KddpRC: rc, KddpOut: normKddpOut(out), OrderEnv: orderEnv, MaxN: map[string]int{}}
 	if f, err := os.Open(logPath); err == nil {
 		sc := bufio.NewScanner(f)
 		for sc.Scan() {
@@ -253,3 +254,9 @@ func replayB(path string) (bool, *bReplay) {
 
 var _ = exec.Command
 var _ = bytes.NewReader
+
+var reAddr = regexp.MustCompile(`0x[0-9a-f]+|goroutine [0-9]+`)
+
+// normKddpOut removes what legitimately differs between two processes printing the same thing: addresses in stack
+// traces of internal compiler errors
+func normKddpOut(s string) string { return reAddr.ReplaceAllString(s, "0xADDR") }
